@@ -177,7 +177,7 @@ func c10Gen(c *core.Ctx) c10Case {
 			return ok && err == nil && a == p && a.Is4() == want4
 		}
 	}
-	switch c.Rng.Intn(16) {
+	switch c.Rng.Intn(17) {
 	case 0: // keyword
 		kw := pick(c10RcodeNames)
 		switch kw {
@@ -361,6 +361,18 @@ func c10Gen(c *core.Ctx) c10Case {
 		}
 
 		return cs
+	case 15:
+		// Names spelled with characters that only Unicode case mapping turns
+		// into ASCII letters (U+017F long s, U+212A Kelvin sign).
+		rr := pick([]string{"SRV", "HTTPS", "SVCB", "MX", "TXT", "NS", "KEY", "DNSKEY", "KX", "CNAME", "AAAA", "A"})
+		sp := strings.NewReplacer("S", "\u017f", "s", "\u017f", "K", "\u212a").Replace(strings.ToLower(rr))
+		if c.Rng.Intn(2) == 0 {
+			sp = strings.NewReplacer("S", "\u017f", "K", "\u212a").Replace(rr)
+		}
+		val := pick([]string{"1 2 80 srv.example.net", "1 . alpn=h3", "10 mail.example.net", "x", "", "1.2.3.4"})
+		rc := pick([]string{"NOERROR", "noerror", "NOERROR", "REFU\u017fED"})
+
+		return c10Case{Value: rc + ";" + sp + ";" + val, Note: "unicode look-alike in a name"}
 	default: // delimiter counts
 		n := c.Rng.Intn(5)
 		parts := []string{"NOERROR", "A", "1.2.3.4", "x", "y"}
